@@ -335,7 +335,19 @@ let run_input form hex a b =
           | Fail st -> Printf.sprintf "fail;T:%s" (tracker_dbg start st)
           | Panic -> "PANIC" | Fuel -> "FUEL" in
         let rp = match fp with
-          | Fail st -> report_text (run_tracker start st.tr)
+          | Fail st ->
+              let t = run_tracker start st.tr in
+              (* Model/ReportHead.v: the head of the message (text of the reported line up to the reported location) and the
+                 indentation of the attempt lines (digits of the line number + 3) *)
+              let head = match head_line bs t.t_position with
+                | MOk h -> let h = List.map int_of_n h in
+                    if h = [] then "-" else String.concat "" (List.map (Printf.sprintf "%02x") h)
+                | MPanic -> "PANIC" in
+              let body = report_text t in
+              let indent = if body = "" then "-" else match line_col bs t.t_position with
+                | LOk (l, _) -> string_of_int (String.length (string_of_int (int_of_nat l)) + 3)
+                | _ -> "PANIC" in
+              "H:" ^ head ^ ":" ^ indent ^ (if body = "" then "" else ";" ^ body)
           | _ -> "-" in
         let ar = aparse e fuel true (TRule (r, SkOn)) start [] in
         let g = if !have_ast && idx <> !cur_eoi then begin
